@@ -505,9 +505,13 @@ class X12LoopDataNode(X12DataNode):
             next_id = xpath.loop_list[0]
             del xpath.loop_list[0]
             try:
+                rest = xpath.format()
                 for loop in [loop for loop in curr.children if loop.type == 'loop']:
                     if loop.id == next_id:
-                        return loop.get_first_matching_segment(xpath.format())
+                        # the first match in any instance of the loop, as first() and select() see it
+                        seg_data = loop.get_first_matching_segment(rest)
+                        if seg_data is not None:
+                            return seg_data
                 return None
             except errors.EngineError as e:
                 raise errors.X12PathError('X12 Path is invalid or was not found: %s' % (x12_path_str))
